@@ -20,6 +20,10 @@ Tokens == SeqsUpTo(Alphabet, TokChars)
 \* tokens usable in Join: no leading blank (the property's restriction)
 JoinTokens == {t \in SeqsUpTo(Alphabet, PartChars) : t = <<>> \/ t[1] # 32}
 
+\* integer tokens at the ends of the index range and the shortest 16-digit one below zero: in range, so they are read as integers - and are the tokens they spell
+LimMax == <<57,48,48,55,49,57,57,50,53,52,55,52,48,57,57,49>>
+LimMin == <<45>> \o LimMax
+Neg16 == <<45, 49,48,48,48,48,48,48,48,48,48,48,48,48,48,48,48>>
 P(str) == str
 Probe == LET inner == Obj(<<<<97>>, <<49>>, <<>>, <<48>>>>, <<IntV(1), Arr(<<Null>>), Str(<<120>>), Null>>)      \* (the member "0" holds null: a value, not "missing")
              leaf == Arr(<<IntV(0), inner, Str(<<97, 98>>)>>)
@@ -30,6 +34,7 @@ Parts == {PtrEscape(t) : t \in JoinTokens}                                    \*
          \cup {PtrEscape(<<97>>) \o <<SLASH>> \o PtrEscape(t) : t \in {<<49>>, <<126>>, <<>>}}   \* two tokens
          \cup {PrintPtr(<<t>>) : t \in {<<97>>, <<49>>, <<47>>, <<>>}}        \* absolute: replaces
          \cup {PrintPtr(<<<<>>, <<97>>>>), PrintPtr(<<<<>>, <<>>>>)}          \* absolute, beginning with empty tokens: "//a", "//"
+         \cup {LimMin, Neg16, LimMax}                                          \* single integer tokens at the ends of the index range
 
 ASSUME PrintT(ToJson([probe |-> Probe]))
 
@@ -37,7 +42,7 @@ Observe(p) == [toks |-> p, text |-> PrintPtr(p),
                res |-> LET r == Resolve(Probe, p) IN IF IsErr(r) THEN [ok |-> FALSE, loc |-> <<>>] ELSE [ok |-> TRUE, loc |-> LocOfPtr(Probe, p)]]
 
 \* (two start pointers with a token that reads as a percent-encoded character: three ordinary characters unless URI decoding is asked for)
-Init == /\ ptr0 \in SeqsUpTo(Tokens, MaxToks) \cup {<<<<37, 52, 49>>>>, <<<<97>>, <<97, 37, 50, 70, 98>>>>}
+Init == /\ ptr0 \in SeqsUpTo(Tokens, MaxToks) \cup {<<<<37, 52, 49>>>>, <<<<97>>, <<97, 37, 50, 70, 98>>>>, <<<<97>>, LimMin>>, <<Neg16>>, <<LimMax, <<97>>>>}
         /\ ptr = ptr0
         /\ hist = <<>>
 
